@@ -127,6 +127,18 @@ def generate(repo):
     flag('sm_neg_check_body', re.search(r'require\(\s*neg\s*<=\s*len\s*,', mbody), 'matchBody: require(neg <= len)')
     if len(re.findall(r'uint32_t\s+(?:len|neg)\s*=\s*matchPos\(\s*\)\s*;', mbody)) != 2:
         problems.append('anchor not found: matchBody reads len/neg with matchPos()')
+    # the atom limit: the member matchAtom hands the reader's varMax_ (setMaxVar) to the free function; matchBody / matchSum / readRules read
+    # every rule atom (and the head count) with that member - the model's m_atom_v vm (coq/C07/Model.v, Section MaxVar)
+    if not re.search(r'Atom_t\s+matchAtom\(const\s+char\*\s*err\s*=\s*"[^"]*"\)\s*\{\s*return\s+Potassco::matchAtom\(\*stream\(\),\s*varMax_,\s*err\);', mh):
+        problems.append('anchor not found: ProgramReader::matchAtom(err) passes varMax_')
+    if not re.search(r'void\s+setMaxVar\(unsigned\s+v\)\s*\{\s*varMax_\s*=\s*v;\s*\}', mh):
+        problems.append('anchor not found: ProgramReader::setMaxVar')
+    for nm, text, cnt in (('matchBody', mbody, 1), ('matchSum', msum, 1), ('readRules', rrules, 6)):
+        calls = re.findall(r'(?<![\w:.>])matchAtom\(\s*(?:"[^"]*")?\s*\)', text)
+        if len(calls) != cnt or len(re.findall(r'matchAtom\s*\(', text)) != cnt:
+            problems.append('anchor not found: %s reads its atoms with the member matchAtom() (%d calls expected)' % (nm, cnt))
+    if not re.search(r'Lit_t\s+p\s*=\s*lit\(matchAtom\(\)\);', mbody) or not re.search(r'Lit_t\s+p\s*=\s*lit\(matchAtom\(\)\);', msum):
+        problems.append('anchor not found: matchBody / matchSum literal = lit(matchAtom())')
     lim('sm_weight_max', msum, r'x->weight\s*=\s*\(Weight_t\)\s*matchPos\((.*?)\)\s*;', 'matchSum: weight limit')
     # readRules
     lim('sm_rt_max', rrules, r'\(rt\s*=\s*matchPos\((.*?)\)\)\s*!=\s*0', 'readRules: rule type limit')
